@@ -260,6 +260,34 @@ pub fn check_code(code: &[u8], permissive: bool, hostile_positions: bool, acc: &
     CaseResult::Pass
 }
 
+/// sign extensions with constant operands around the word size, stored to constant slots: the width a
+/// rule derives from such a constant must not describe more than the slot
+fn g_signextend(ch: &mut Chooser) -> B {
+    let mut b = B::new();
+    for slot in 0..ch.range(1, 3) as u64 {
+        let k = *ch.pick(&[0u64, 1, 15, 19, 30, 31, 32, 33, 63, 64, 127, 128, 255, 256, 257, 511, 512, 1 << 32, u64::MAX]);
+        // both operand orders: the subject records SIGNEXTEND's operands in exchanged roles
+        if ch.chance(1, 2) {
+            b.push(W::from_u64(4));
+            b.emit(asm::CALLDATALOAD);
+            b.push(W::from_u64(k));
+        } else {
+            b.push(W::from_u64(k));
+            b.push(W::from_u64(4));
+            b.emit(asm::CALLDATALOAD);
+        }
+        b.emit(asm::SIGNEXTEND);
+        if ch.chance(1, 3) {
+            b.push(W::from_u64(*ch.pick(&[8u64, 128, 248])));
+            b.emit(asm::SHL);
+        }
+        b.push(W::from_u64(slot));
+        b.emit(asm::SSTORE);
+    }
+    b.emit(asm::STOP);
+    b
+}
+
 fn run_shard(ctx: &ShardCtx, acc: &mut Acc) {
     let tier = ctx.tier;
     drive(ctx, "layouts", tier.pick(20_000, 250_000), 900, acc, &|ch, acc| {
@@ -271,6 +299,7 @@ fn run_shard(ctx: &ShardCtx, acc: &mut Acc) {
                 let t = idiom::gen_truth(ch, 8);
                 ("idiom", asm::assemble(&idiom::compile(&t, 0xa0b0_0000)), false)
             }
+            8 if ch.chance(1, 2) => ("signextend", g_signextend(ch).code(), true),
             8 => ("struct", gen::g_struct(ch, 60).code(), false),
             _ => ("mutreal", gen::g_mutreal(ch, tier.pick(300, 1500)).1, false),
         };
